@@ -7,26 +7,26 @@ VERIF = os.path.dirname(os.path.dirname(os.path.abspath(__file__)))
 
 # additions of the second round of independently seeded changes (rule families, see DESIGN 11.1)
 EXTRA = {
- "C17": "; URL-validator tests cannot be bypassed by an early `return f(…)`; the merge returns the join of everything collected, evaluated after the loops; the one-OIDC-filter-per-chain latch is monotone within a chain; the root-path tests compare url.Parse(x).Path with \"/\" and \"\"",
- "C16": "; shared vs exclusive lock tokens; no write to a dependency's package-level object without Clone; response header lists own their backing array; http.Transport writes only on transports of the same call; response object per check; generator wiring and statelessness rules of C06 filed under R4",
- "C06": "; generator results never kept in long-lived containers; the callback's session id comes from the cookie only; the response the filters write to is allocated by the check that returns it",
- "C02": "; the judging handler is built per check from the matched filter; the access-token entry is written whenever forwarding is configured and a token is present (path feasibility under assumed atoms); discovery cache keyed by the fetched URI; every http.Transport field write and every http.Client.Transport is a transport created in the same call",
- "C01": "; trigger-decision shape refiled as a necessary condition (no `not triggered` before every rule was consulted); the refreshed token object must be an allocation of the refresh helper; verdict totality of every Handler.Process refiled (an unset verdict is read as OK)",
- "C03": "; transport-wrapper rule over own http.RoundTripper implementations (body-consuming dump applied to the forwarded request, no write to the incoming request's headers/fields); TLS pool insertion only after the load can no longer fail; IdP answer read whole; response header lists own their backing array; optional nonce compared only against an existing expectation; token_type comparison decisive; the handler's configuration is the constructor's parameter or its own clone",
- "C04": "; transport-wrapper rule over own http.RoundTripper implementations (credentials and form of the token request reach the IdP unchanged); the Basic credentials are encoded with base64.StdEncoding",
- "C05": "; every object that can be the logout answer carries the expiring cookie; response header lists own their backing array; stores report a failed removal; the cookie decoder splits the whole header (no bounded split, no return from inside the loop)",
- "C07": "; `not triggered` only behind the exhaustion of the rule loop; the trigger functions consult no package-level state; no own function writes into the ext_authz request",
- "C08": "; who-may-write rule on Config.Chains / FilterChain.Filters / FilterChainMatch; the unmatched tail is entered only from the chain loop's exhaustion edge; no own function writes into the ext_authz request (interceptors included)",
- "C09": "; response header lists never share the backing array of a package-level slice; discovery cache keyed by the fetched URI; the cookie the logout expires is named by the filter's own cookie name; discovery runs whenever a configuration URI is set; every successful Redis operation passes through the TTL refresher, which fails on a removed session (C09.R6)",
- "C10": "; store constructors called only from the factory's PreRun; HSETNX of the creation time on every successful path of both setters and never HDEL'ed; the refresher is handed the stored creation time and arms EXPIREAT on every successful return; only the two write operations stamp; a looked-up session reaches its first use only through the expiry predicate (also through phis); the expiry predicate may be a function of the session with the timeouts passed in (parameters bound to the store's fields at every call site)",
- "C11": "; expiry-test shape refiled (a required token's expiry cannot be shadowed); optional nonce compared only against an existing expectation; token_type comparison decisive",
- "C12": "; creation-time stamping on every successful path (no replica-local `already stamped` shortcut); shared (RLock) vs exclusive lock tokens: writes need the exclusive one; every successful Redis operation re-arms the expiry (C12.R7); key tables of constants in slice-of-struct literals are resolved",
- "C13": "; discovery cache keyed by the fetched URI; exact openid scope rule of the loader refiled; discovery runs whenever a configuration URI is set; the judging handler is built per check from the matched filter",
- "C14": "; whole-object taint sources (an object with secret fields handed to a formatter); token fields are assigned from same-named fields only; the response object is allocated per check; the judging handler is built per check from the matched filter",
- "C15": "; own RoundTripper implementations are crash roots; the value result of a (value, error) call passed to a dependency function counts as a dereference; results of dependency interfaces follow the err == nil convention; make sizes must be constants, lengths or known non-negative; no own function returns with a mutex held and no deferred unlock (C15.R6, lockset analysis of C16)",
- "C18": "; loop-carried-argument rule on the store constructors' timeouts; handler built per check from the matched filter; the Redis client of a store is NewClient(ParseURL(own URI)); proto.Merge writes into an own copy; transports are per call; the handler's configuration is its own; key-set provenance of C02.R5 filed under R3",
- "C19": "; latch rule on the watch decision; provenance rule on the handler's configuration (constructor parameter or its own proto.Clone); once the index key is computed the registration cannot be skipped",
- "C20": "; TLS pool insertion only after the load can no longer fail; the file reader keeps the configured path as given; transports are per call; FileReader.Read returns the bytes of a read made by that call; pool insertion may go through a helper",
+ "C17": "; URL-validator tests cannot be bypassed by an early `return f(…)`; the merge returns the join of everything collected, evaluated after the loops; the one-OIDC-filter-per-chain latch is monotone within a chain; the root-path tests compare url.Parse(x).Path with \"/\" and \"\"; the loader never appends onto a slice of the shared default configuration; a range over a non-empty literal executes its body (loop-aware must-pass)",
+ "C16": "; shared vs exclusive lock tokens; no write to a dependency's package-level object without Clone; response header lists own their backing array; http.Transport writes only on transports of the same call; response object per check; generator wiring and statelessness rules of C06 filed under R4; no long-lived own struct keeps a dependency object that is not safe for concurrent use; start gates are closed before their owner blocks; function values and method expressions inherit the lockset of the site that invokes them; elements of a literal built in the activation are fresh",
+ "C06": "; generator results never kept in long-lived containers; the callback's session id comes from the cookie only; the response the filters write to is allocated by the check that returns it; response header lists own their backing array",
+ "C02": "; the judging handler is built per check from the matched filter; the access-token entry is written whenever forwarding is configured and a token is present (path feasibility under assumed atoms); discovery cache keyed by the fetched URI; every http.Transport field write and every http.Client.Transport is a transport created in the same call; discovery assigns authorization, token and JWKS endpoints on every successful path; the TLS pool key covers every setting (C20.R4 filed under R5)",
+ "C01": "; trigger-decision shape refiled as a necessary condition (no `not triggered` before every rule was consulted); the refreshed token object must be an allocation of the refresh helper; verdict totality of every Handler.Process refiled (an unset verdict is read as OK); the expiry writers' guard is expires_in > 0 itself (C03.R4 filed under R4); the access token is written to Redis before its expiry (C12.R2 filed under R6)",
+ "C03": "; transport-wrapper rule over own http.RoundTripper implementations (body-consuming dump applied to the forwarded request, no write to the incoming request's headers/fields); TLS pool insertion only after the load can no longer fail; IdP answer read whole; response header lists own their backing array; optional nonce compared only against an existing expectation; token_type comparison decisive; the handler's configuration is the constructor's parameter or its own clone; discovery assigns the endpoints on every successful path; the memory store's expiry predicate rules (C10.R1) filed under R2; a single IdP-response validator shared by login and refresh is recognised",
+ "C04": "; transport-wrapper rule over own http.RoundTripper implementations (credentials and form of the token request reach the IdP unchanged); the Basic credentials are encoded with base64.StdEncoding; the token request is sent at most once per exchange; the handler's configuration is its own; the TTL-refresher rules (C10.R3) filed under R4",
+ "C05": "; every object that can be the logout answer carries the expiring cookie; response header lists own their backing array; stores report a failed removal; the cookie decoder splits the whole header (no bounded split, no return from inside the loop); the cookie header is split on ';' only; the cookie name is constants + the configured prefix as it is",
+ "C07": "; `not triggered` only behind the exhaustion of the rule loop; the trigger functions consult no package-level state; no own function writes into the ext_authz request; no own function rewrites the trigger rules after loading",
+ "C08": "; who-may-write rule on Config.Chains / FilterChain.Filters / FilterChainMatch; the unmatched tail is entered only from the chain loop's exhaustion edge; no own function writes into the ext_authz request (interceptors included); the AllowUnmatchedRequests default is applied only behind the exhaustion of the chain list",
+ "C09": "; response header lists never share the backing array of a package-level slice; discovery cache keyed by the fetched URI; the cookie the logout expires is named by the filter's own cookie name; discovery runs whenever a configuration URI is set; every successful Redis operation passes through the TTL refresher, which fails on a removed session (C09.R6); the callback re-checks the session between the code exchange and the token write; only the discovery loader assigns the endpoints and the logout redirect URI; a denial helper counts as a plain denial",
+ "C10": "; store constructors called only from the factory's PreRun; HSETNX of the creation time on every successful path of both setters and never HDEL'ed; the refresher is handed the stored creation time and arms EXPIREAT on every successful return; only the two write operations stamp; a looked-up session reaches its first use only through the expiry predicate (also through phis); the expiry predicate may be a function of the session with the timeouts passed in (parameters bound to the store's fields at every call site); the in-memory store is built under `this filter has no Redis server`; timeouts bundled in a struct are resolved",
+ "C11": "; expiry-test shape refiled (a required token's expiry cannot be shadowed); optional nonce compared only against an existing expectation; token_type comparison decisive; the token request is sent at most once per exchange; merge alternatives are judged under the facts of the edge that selects them",
+ "C12": "; creation-time stamping on every successful path (no replica-local `already stamped` shortcut); shared (RLock) vs exclusive lock tokens: writes need the exclusive one; every successful Redis operation re-arms the expiry (C12.R7); key tables of constants in slice-of-struct literals are resolved; the access token is written before its expiry member",
+ "C13": "; discovery cache keyed by the fetched URI; exact openid scope rule of the loader refiled; discovery runs whenever a configuration URI is set; the judging handler is built per check from the matched filter; discovery assigns the endpoints on every successful path",
+ "C14": "; whole-object taint sources (an object with secret fields handed to a formatter); token fields are assigned from same-named fields only; the response object is allocated per check; the judging handler is built per check from the matched filter; lists of the OK response other than Headers receive no token-bearing header; data read from a Kubernetes Secret is stored only as the client secret",
+ "C15": "; own RoundTripper implementations are crash roots; the value result of a (value, error) call passed to a dependency function counts as a dereference; results of dependency interfaces follow the err == nil convention; make sizes must be constants, lengths or known non-negative; no own function returns with a mutex held and no deferred unlock (C15.R6, lockset analysis of C16); start gates are closed before their owner blocks and memory-store writes hold the exclusive lock (filed under R6)",
+ "C18": "; loop-carried-argument rule on the store constructors' timeouts; handler built per check from the matched filter; the Redis client of a store is NewClient(ParseURL(own URI)); proto.Merge writes into an own copy; transports are per call; the handler's configuration is its own; key-set provenance of C02.R5 filed under R3; the cookie name is constants + the configured prefix as it is",
+ "C19": "; latch rule on the watch decision; provenance rule on the handler's configuration (constructor parameter or its own proto.Clone); once the index key is computed the registration cannot be skipped; Reconcile returns without updating only for the enumerated reasons",
+ "C20": "; TLS pool insertion only after the load can no longer fail; the file reader keeps the configured path as given; transports are per call; FileReader.Read returns the bytes of a read made by that call; pool insertion may go through a helper; own code sets only the audited tls.Config fields; the content-differs test may be bytes.Equal",
 }
 
 # id -> (technique, level text, level note)
